@@ -44,7 +44,7 @@ CLAUSES = {
     "OverflowNotRaised": ["C16"], "SpuriousOverflow": ["C16"], "RejectedButSent": ["C16"],
     "NotOpenNotRaised": ["C16", "C15"], "SpuriousNotOpen": ["C16"],
     "AtMostOne": ["C07"], "HealNotConnected": ["C07"], "HealNotTransmitting": ["C07"],
-    "HealNotReceiving": ["C07"], "AbandonedNotClosed": ["C07"], "HalfOpenNotClosed": ["C07"], "GaveUpConnecting": ["C07", "C15"],
+    "HealNotReceiving": ["C07"], "AbandonedNotClosed": ["C07"], "HalfOpenNotClosed": ["C07"], "GaveUpConnecting": ["C07", "C15", "C14"],
     "DefectNotClosed": ["C06", "C07", "C17"], "DeliveredAfterDefect": ["C06", "C17"],
     "DeliverWithoutFrame": ["C13", "C17"], "FrameNotDelivered": ["C13", "C07"],
     "Misread": ["C03", "C13", "C17"], "UnhandledException": ["C17", "C07"],
